@@ -69,7 +69,7 @@ macro_rules! ctor_case {
                 if ma != N {
                     viol($v, 4, "min_align_misreported", format!("min_align_misreported/{cname}"), format!("Bump::<{N}>::{cname}: min_align() = {ma}"));
                 }
-                if p1 % N != 0 {
+                if N != 0 && p1 % N.max(1) != 0 {
                     viol($v, 4, "misaligned_min", format!("misaligned_min/{cname}/first_alloc"), format!("Bump::<{N}>::{cname}: first alloc at {:#x}", p1));
                 }
             }
